@@ -31,3 +31,21 @@ func init() {
 		c08.Harnesses = append(c08.Harnesses, c02h("verifHarnessC02"+n, nil, "database leg of the status table: DB."+n+" reports a missing secret or version in the not-found class"))
 	}
 }
+
+func init() {
+	// C17's "a successful write is followed by one upload, a failed write by none" composes the backup loop (server package,
+	// driven by the generation number) with the database's rule for that number (db package): it advances exactly when the
+	// file was replaced.
+	c17 := findProp("C17")
+	if c17 == nil {
+		return
+	}
+	c17.Pkgs = append(c17.Pkgs, "db")
+	for _, n := range []string{"Put", "Activate", "DeleteVersion", "Delete"} {
+		c17.Harnesses = append(c17.Harnesses, &HarnessSpec{Name: "verifHarnessC04" + n, Pkg: "db", Stubs: dbEnvStubs,
+			Params: map[string]int{"secrets": 2, "versions": 2}, ThoroughParams: map[string]int{"secrets": 3, "versions": 3},
+			ExpectReach: []string{"end-fault", "end-no-fault"}, NoNative: "file-system and tink are models (DESIGN §4.2/4.3); realising their faults natively needs ptrace fault injection",
+			Desc: "database leg of change detection: after DB." + n + " the generation has advanced exactly when the file was replaced (a failing write does not look like a change, a replaced file always does)"})
+	}
+	c17.Bounds["database states (generation leg)"] = "2 / 3 secrets with 2 / 3 versions, any save fault"
+}
